@@ -16,14 +16,15 @@ import (
 //
 //	X <nlevels> (<plen> <key>{plen}){nlevels} <id> <dump> <nphases> phase{n} R <n> (<level> <name>){n}
 //	phase := P <create> <checker> <nstmts> stmt{n}
-//	stmt  := s <slot> <op> | g <slot> | w <slot> <n> (<from> <to>){n}
+//	stmt  := s <slot> <op> | g <slot> | w <slot> <n> (<from> <to>){n} | wn <slot>
 //
 // Level 0 is the store the entity is persisted through, level k its k-th ancestor; <plen> keys are
 // the store's entity path below the root store's entity bucket (StoreDefinition.BasePath of a child
 // store).  <dump> is the root store's entity bucket of entity <id>.  Every phase is one bbolt
 // transaction: the context a store builds for Create / Update (boltz/store_crud.go: MutateContext,
 // Id, Store, Bucket, FieldChecker, IsCreate) in slot 0, then the statements: a setter through the
-// context in a slot, ctx[slot+1] = ctx[slot].GetParentContext(), ctx[slot].WithFieldOverrides.
+// context in a slot, ctx[slot+1] = ctx[slot].GetParentContext(), ctx[slot].WithFieldOverrides (wn: of a nil map;
+// equal mapping tables of one case are one Go map object).
 // The phase fails when the bucket of the slot-0 context reports an error (what Create / Update
 // return).  Ops are those of S (through the PersistContext method where there is one, else the
 // TypedBucket setter with ctx.FieldChecker) and
@@ -84,7 +85,7 @@ func (s *c13Toks) c13xMappings() map[string]string {
 			m[from] = to
 		}
 	}
-	return m
+	return s.sharedMap(m)
 }
 
 // c13xRunStmts performs the statements of one phase; outs collects what GetAndSet* return
@@ -97,6 +98,8 @@ func c13xRunStmts(s *c13Toks, n int, ctxs []*boltz.PersistContext, tx *bbolt.Tx,
 		case "w":
 			slot := s.int()
 			ctxs[slot].WithFieldOverrides(s.c13xMappings())
+		case "wn":
+			ctxs[s.int()].WithFieldOverrides(nil)
 		case "s":
 			ctx := ctxs[s.int()]
 			switch s.peek() {
@@ -137,7 +140,7 @@ func c13xRunStmts(s *c13Toks, n int, ctxs []*boltz.PersistContext, tx *bbolt.Tx,
 func c13xSkipStmts(s *c13Toks, n int) {
 	for i := 0; i < n; i++ {
 		switch k := s.next(); k {
-		case "g":
+		case "g", "wn":
 			s.next()
 		case "w":
 			s.next()
@@ -483,7 +486,11 @@ func (g *c13Gen) c13xProgram(nl int, pools [][][]byte, nops int, pOverride, pRed
 			for j := 0; j < n; j++ {
 				maps = append(maps, hx(pool[g.r.intn(len(pool))])+" "+hx(pools[g.r.intn(nl)][g.r.intn(3)]))
 			}
-			st = append(st, fmt.Sprintf("w %d %d%s", slot, n, c13Join(maps)))
+			if g.r2 != nil && g.r2.chance(6) {
+				st = append(st, fmt.Sprintf("wn %d", slot))
+			} else {
+				st = append(st, fmt.Sprintf("w %d %d%s", slot, n, c13Join(maps)))
+			}
 		}
 		if derived > 0 && g.r.chance(pRederive) {
 			// deriving again takes the receiver's checker as it is now
